@@ -44,8 +44,8 @@ func init() {
 		Trusted: trustedBase,
 		Assume:  []string{"that the hint's index is the index of the hinted block (arithmetic, C05/C20)"},
 		Run: func(c *Ctx) {
-			ruleAlloc(c, "C07.", map[string]bool{"HINT": true, "SAMEINDEX": true}) // the block returned is the conversion of the hinted index
-			ruleLinMap(c, "C07.")                                                  // a hint at either end of the range must convert to its own index
+			ruleAlloc(c, "C07.", map[string]bool{"HINT": true, "SAMEINDEX": true, "LOCK": true}) // the block returned is the conversion of the hinted index
+			ruleLinMap(c, "C07.")                                                                // a hint at either end of the range must convert to its own index
 			ruleHintCallers(c, "C07.HINT.CALLERS")
 			ruleArith(c, "C07.") // the hinted index converts back to the hinted block only if AddPrefixes neither wraps nor reports a spurious overflow
 			ruleGeomAlias(c, "C07.")
@@ -67,7 +67,9 @@ func init() {
 			ruleGlobalRO(c, "C16.GLOBAL-RO")
 			ruleBufRelease(c, "C16.BUF.RELEASE")
 			ruleFreshPublish(c, "C16.PUBLISH-FRESH")
+			ruleFileWatch(c, "C16.") // refreshes of the served table are serialised: one watcher goroutine reloads on each event, nothing else does
 			rulePoolRetain(c, "C16.POOL.NO-RETAIN")
+			ruleCallbackSharedWrites(c, "C16.CALLBACK-SHARED")
 			for _, ai := range findAllocImpls(c) {
 				ruleAllocLock(c, "C16.", ai)
 			}
@@ -89,6 +91,7 @@ func init() {
 			}
 			runSafety(c, "C16.", lockers, nil, "LOCKPAIR")
 			ruleLockOrder(c, "C16.")
+			c.R.Floor("C16.FILE.WATCH", 1)
 			c.R.Floor("C16.PUBLISH-FRESH", 1)
 			c.R.Floor("C16.POOL.NO-RETAIN", 2)
 			c.R.Floor("C16.GUARDED-BY", 25)
@@ -115,7 +118,9 @@ func init() {
 			ruleGuardedBy(c, "C02.", "range.")
 			ruleLinMap(c, "C02.")                                                // "in range": the IPv4 allocator's index↔address maps and bitmap size are exact
 			ruleAlloc(c, "C02.", map[string]bool{"TESTSET": true, "FULL": true}) // "never bound to two clients": the allocator hands out only clear bits and fails exactly when none is left
+			ruleDBSaveSync(c, "C02.DB.SAVE-SYNC")                                // a restart right after a reply finds the lease
 			ruleDBSchema(c, "C02.")                                              // "restarts in between": what was saved for a client is what is restored for it
+			c.R.Floor("C02.DB.SAVE-SYNC", 1)
 			c.R.Floor("C02.ALLOC.TESTSET", 3)
 			c.R.Floor("C02.FULL-IFF-FAIL", 4)
 			c.R.Floor("C02.DB.SCHEMA-AGREE", 5)
@@ -135,10 +140,12 @@ func init() {
 		Assume:  []string{"sqlite type affinity of the `string` columns beyond the MAC column's one-byte case handled by the loader", "crash-atomicity of the sqlite write", "a failing saveIPAddress is logged and the reply still sent (storage faults are outside the property's quantifier)"},
 		Run: func(c *Ctx) {
 			ruleDBSchema(c, "C03.")
+			ruleDBSaveSync(c, "C03.DB.SAVE-SYNC")
 			ruleRangeHandler(c, "C03.", map[string]bool{"C03": true})
 			ruleDBLoad(c, "C03.")
 			ruleRangeRestart(c, "C03.RANGE.RESTART")                             // "none lost": every loaded binding is kept and re-marked, or start-up aborts
 			ruleAlloc(c, "C03.", map[string]bool{"TESTSET": true, "FULL": true}) // an address handed out twice puts one ip in two rows: such a database is refused at restart
+			c.R.Floor("C03.DB.SAVE-SYNC", 1)
 			c.R.Floor("C03.ALLOC.TESTSET", 3)
 			c.R.Floor("C03.FULL-IFF-FAIL", 4)
 			c.R.Floor("C03.DB.SCHEMA-AGREE", 5)
@@ -161,9 +168,11 @@ func init() {
 			rulePrefix(c, "C08.", map[string]bool{"C08": true})
 			ruleAlloc(c, "C08.", map[string]bool{"TESTSET": true, "SAMEINDEX": true, "LOCK": true}) // disjointness across clients rests on the allocator
 			ruleGuardedBy(c, "C08.", "prefix.")
+			rulePoolIsParsedNetwork(c, "C08.PD.POOL-ALIGNED")
 			ruleGeomAlias(c, "C08.") // what a client was told it holds stays what is recorded: no answer shares storage with a later one
 			ruleConvPair(c, "C08.")  // disjoint blocks: index and prefix conversions are the library's inverse pair
 			for _, r := range []string{"PD.PROVENANCE", "PD.OWN-KEY", "PD.ONE-PER-IAPD", "PD.NOPREFIX", "PD.LIFETIME", "PD.FRESH", "PD.LOCK"} {
+				c.R.Floor("C08.PD.POOL-ALIGNED", 1)
 				c.R.Floor("C08.CONV-PAIR", 3)
 				c.R.Floor("C08.ALLOC.GEOM-ALIAS", 3)
 				c.R.Floor("C08."+r, 1)
